@@ -3,8 +3,8 @@ import resource
 from .. import bb, chain as K, gen_chain as GC
 
 NAMESPACE = "Rbp.Props.C17"
-REQUIRED = ["open_invariant", "disjoint_constant"]
-LEAN_FILES = ["Rbp/Model/Driver.lean", "Rbp/Model/Run.lean"]
+REQUIRED = ["open_invariant", "disjoint_constant", "open_invariant_run"]
+LEAN_FILES = ["Rbp/Model/Driver.lean", "Rbp/Model/Run.lean", "Rbp/Proofs/OpenFiles.lean"]
 RULE = ("black-box runs with -v: the `Opening <blk file>` / `Closing <blk file>` debug lines of the real binary form its open/close trace, compared event for event with the model's trace; layouts with 1..40 blk files (quick) whose height spans are "
         "disjoint, overlapping or interleaved, ranges starting/stopping in the middle of a file; on the real trace the invariant `open => a block of that file is still to come` and, for disjoint spans, `at most one file open` are checked directly; "
         "thorough adds 300..1200 files with disjoint spans under `ulimit -n` set a few above the single-file calibration. non-trivial = more than one blk file; distinct = distinct scenarios")
